@@ -137,13 +137,13 @@ Definition http_astep := astep fsm_cfg hctl hcl http_step.
 Definition cluster_astep := astep fsm_cfg kctl kcl cluster_step.
 
 Definition composite_set : list (cctl * st) :=
-  Eval vm_compute in bfs _ _ composite_astep cctl_st_eq_dec composite_labels 100000
+  Eval vm_compute in bfs _ _ composite_astep cctl_st_eq_dec composite_labels (400 * 250)
                          [(composite_init, New)] [(composite_init, New)].
 Definition http_set : list (hctl * st) :=
-  Eval vm_compute in bfs _ _ http_astep hctl_st_eq_dec http_labels 100000
+  Eval vm_compute in bfs _ _ http_astep hctl_st_eq_dec http_labels (400 * 250)
                          [(http_init, New)] [(http_init, New)].
 Definition cluster_set : list (kctl * st) :=
-  Eval vm_compute in bfs _ _ cluster_astep kctl_st_eq_dec cluster_labels 100000
+  Eval vm_compute in bfs _ _ cluster_astep kctl_st_eq_dec cluster_labels (400 * 250)
                          [(cluster_init, New)] [(cluster_init, New)].
 
 Lemma composite_closed : closedb _ _ composite_astep cctl_st_eq_dec composite_labels composite_set = true.
